@@ -445,7 +445,12 @@ class IntervalKind(AbsInt):
 
     def compare(self, node, fr):
         if len(node.ops) != 1:
-            return ('bool', None)
+            # a < x < b  ==  (a < x) and (x < b)
+            parts, left = [], node.left
+            for op, right in zip(node.ops, node.comparators):
+                parts.append(self.compare(ast.copy_location(ast.Compare(left=left, ops=[op], comparators=[right]), node), fr))
+                left = right
+            return self.boolop(ast.BoolOp(op=ast.And(), values=[]), parts, fr)
         a, b = self.value(node.left, fr), self.value(node.comparators[0], fr)
         if isinstance(a, IV) and isinstance(b, IV):
             r = compare(type(node.ops[0]).__name__, a, b)
